@@ -54,10 +54,9 @@ def run (s : Sexp) : String :=
       let sp := specC isSet (specC isSet ⟨[], []⟩ (init.map .append)) ops
       let cl := closure R fuel (sp.calls.map fun t => (f, a, t))
       let spec := if cl.2 then showContents isSet sp.c ++ "|" ++ showRels cl.1 else "spec-diverged"
-      let trig := (if trigSelfAssign ops then ["F-C16-1"] else []) ++ (if trigIadd ops then ["F-C16-2"] else []) ++
-        (if trigListOrder isSet ops then ["F-C16-3"] else []) ++ (if trigBypass ops then ["F-C16-4"] else [])
-      s!"model={out Quirks.asIs}\tspec={spec}\ttrig={",".intercalate trig}\tmodel_fixed={out Quirks.none}" ++
-      s!"\tmodel_fix_setter={out ⟨false, false, true⟩}\tmodel_fix_inplace={out ⟨true, true, false⟩}"
+      -- F-C16-1..4 are repaired in /repo (fix commits 1406c8c, 86aebcb): the model tied to the code is `Quirks.none`,
+      -- and no trigger excuses a deviation any more
+      s!"model={out Quirks.none}\tspec={spec}\ttrig="
     | _, _, _, _, _, _ => "error=bad-case"
   | _ => "error=bad-case"
 
